@@ -148,6 +148,7 @@ type SpecDB struct {
 	Valids    map[string][]*ValidSpec
 	Opaque    map[string]bool
 	Guarded   map[string]string // "TypeKey.field" -> lock field of the same struct
+	GuardExc  map[string][]string // "TypeKey.field" -> exempt function key suffixes
 	NoEffect  []string
 	Delegates map[string]string
 	Globals   []*GlobalInv
@@ -187,8 +188,10 @@ func (db *SpecDB) Add(sf *SpecFile) error {
 	for _, g := range sf.Guarded {
 		if db.Guarded == nil {
 			db.Guarded = map[string]string{}
+			db.GuardExc = map[string][]string{}
 		}
 		db.Guarded[g.Type+"."+g.Field] = g.Lock
+		db.GuardExc[g.Type+"."+g.Field] = g.Except
 	}
 	for _, o := range sf.Opaques {
 		db.Opaque[qualifyType(o, sf)] = true
